@@ -168,7 +168,9 @@ def store(ctx):
                                                         ("outcome array not transposed (rows are shots)", transposed),
                                                         ("not in a loop over the register", in_loop)) if not c]
                     ctx.ob(rule, f.site, ok, "; ".join(why), role="val-store", line=st.lineno)
-    ctx.require(found, "Measurement.apply no longer stores r.val")
+    if not found:
+        ctx.ob(rule, f.site, False, "Measurement.apply no longer stores the outcome in r.val of the measured registers: a measured "
+               "parameter keeps its previous value (or none)", role="val-store", line=f.node.lineno)
     # the stored value is the value returned
     ctx.floor(rule, 1)
 
@@ -251,7 +253,10 @@ def reset_measured(ctx):
     f = ctx.tree.func("backends/fockbackend/circuit.py", "Circuit.measure_fock")
     rd = rd_of(f.node)
     calls = [n for n in walk_no_nested(f.node) if isinstance(n, ast.Call) and dotted(n.func) == "ops.project_reset"]
-    ctx.require(len(calls) >= 2, "measure_fock no longer calls ops.project_reset twice")
+    if len(calls) < 2:
+        ctx.ob("C06.reset", f.site, False, "Circuit.measure_fock no longer projects-and-resets the measured modes in both "
+               "representations (ops.project_reset): the measured modes are not left in vacuum", role="fock-project-reset", line=f.node.lineno)
+        return
     for i, c in enumerate(sorted(calls, key=lambda x: x.lineno)):
         d0 = derives(f.node, c.args[0])
         d1 = derives(f.node, c.args[1])
